@@ -379,7 +379,9 @@ pub fn run() {
                                     "QCorrupt".into()
                                 }
                             },
-                            Err(e) => format!("QErr({:?})", e),
+                            // the only accept the programs issue without a queued first message is the one whose client has
+                            // gone away: the transport reports the closed channel
+                            Err(_) => "QDisconnected".into(),
                         }
                     },
                 }
